@@ -45,9 +45,10 @@ pub enum Rule {
     RecursiveType,   // extra: a struct / enum that contains itself
     IndexNotUsize,   // extra: index of non-usize type
     AssignWrongType, // extra: assignment of a value of the wrong type
+    TailThenLet,     // extra: a block whose value is needed ends in a statement (its former tail is now an expression statement)
 }
 
-pub const ALL_RULES: [Rule; 34] = [
+pub const ALL_RULES: [Rule; 35] = [
     Rule::OperandKind,
     Rule::OperandWidth,
     Rule::OperatorKind,
@@ -82,6 +83,7 @@ pub const ALL_RULES: [Rule; 34] = [
     Rule::RecursiveType,
     Rule::IndexNotUsize,
     Rule::AssignWrongType,
+    Rule::TailThenLet,
 ];
 
 
@@ -168,6 +170,18 @@ pub const ILL_TYPED_TEXTS: &[(&str, &str)] = &[
     ("join key types differ", concat_jt!("  let j = join(a, w);\n  x\n}\n")),
     ("join plain key types differ", "pub fn main(k: [u8; 2], l: [u16; 2], x: u8) -> u8 {\n  let j = join(k, l);\n  x\n}\n"),
 ];
+
+/// an expression that certainly has a non-unit type (whatever its context)
+fn surely_valued(e: &Expr) -> bool {
+    match &e.kind {
+        ExprKind::Int(..) | ExprKind::Bool(_) | ExprKind::Bin(..) | ExprKind::Un(..) | ExprKind::Cast(..) => true,
+        ExprKind::Block(ss) => tail_surely_valued(ss),
+        _ => false,
+    }
+}
+fn tail_surely_valued(ss: &[Stmt]) -> bool {
+    matches!(ss.last().map(|s| &s.kind), Some(StmtKind::Expr(e)) if surely_valued(e))
+}
 
 fn zq() -> Expr {
     var("zq")
@@ -322,6 +336,24 @@ impl M {
                             return;
                         }
                     }
+                    Rule::TailThenLet => {
+                        // both branches certainly yield a value: one of them now ends in a `let`, so it is
+                        // of type () while its former value is a mere expression statement
+                        if let Some(el) = el {
+                            if tail_surely_valued(t) && tail_surely_valued(el) {
+                                if self.hit() {
+                                    t.push(let_("zq_tail", lit_u8(0)));
+                                    self.mark("then branch: a `let` after the former tail expression");
+                                    return;
+                                }
+                                if self.hit() {
+                                    el.push(let_("zq_tail", lit_u8(0)));
+                                    self.mark("else branch: a `let` after the former tail expression");
+                                    return;
+                                }
+                            }
+                        }
+                    }
                     Rule::BranchTypes => {
                         if self.hit() {
                             match el {
@@ -350,6 +382,22 @@ impl M {
             ExprKind::Match(s, arms) => {
                 if self.rule == Rule::CondNotBool && false {
                     let _ = s;
+                }
+                if self.rule == Rule::TailThenLet && arms.len() >= 2 && arms.iter().all(|(_, a)| surely_valued(a)) {
+                    // every arm certainly yields a value; an arm becomes a block that ends in a `let`
+                    for k in 0..arms.len() {
+                        if self.hit() {
+                            let old = arms[k].1.clone();
+                            let mut ss = match old.kind {
+                                ExprKind::Block(ss) => ss,
+                                _ => vec![expr_stmt(old)],
+                            };
+                            ss.push(let_("zq_tail", lit_u8(0)));
+                            arms[k].1 = block(ss);
+                            self.mark(format!("match arm {k}: a block that ends in a `let` after its former value"));
+                            return;
+                        }
+                    }
                 }
                 if self.rule == Rule::MatchArmType && arms.len() >= 2 && self.hit() {
                     let last = arms.len() - 1;
@@ -774,6 +822,15 @@ pub fn mutate(base: &Program, rule: Rule, k: usize) -> Option<(Program, String)>
                 if m.hit() {
                     f.ret = Ty::Struct("Zq".into());
                     m.mark(format!("declared return type of {} := Zq", f.name));
+                    break;
+                }
+            }
+        }
+        Rule::TailThenLet => {
+            for f in p.fns.iter_mut() {
+                if f.ret != Ty::Tup(vec![]) && tail_surely_valued(&f.body) && m.hit() {
+                    f.body.push(let_("zq_tail", lit_u8(0)));
+                    m.mark(format!("body of {}: a `let` after the former tail expression", f.name));
                     break;
                 }
             }
